@@ -1491,6 +1491,26 @@ package gohlslib
 // audio track of an audio-only multi-track muxer) is a rendition; exactly one rendition is DEFAULT: the
 // one the user marked (an audio track with IsDefault), else the first rendition.
 
+// segmentPath / partPath are used as specification functions in the window invariant ("element i is named after
+// its number"); what the properties need from them is that different numbers give different URIs
+//@ func verifLemmaSegmentPathDistinct
+//@   props C04 C05
+//@   theory strinj
+//@   ensures a != b ==> result0 != result1
+//@ end
+
+//@ func verifLemmaPartPathDistinct
+//@   props C04 C05
+//@   theory strinj
+//@   ensures a != b ==> result0 != result1
+//@ end
+
+// isVideo is used as a specification function below: its own contract pins it to the codec list of the README
+//@ func isVideo
+//@   props C02 C16
+//@   ensures result == (codec != nil && (is(codec, *codecs.AV1) || is(codec, *codecs.VP9) || is(codec, *codecs.H265) || is(codec, *codecs.H264)))
+//@ end
+
 //@ pred trackAt(m *Muxer, k int) *Track := m.Tracks[k]
 //@ pred inTracks(m *Muxer, k int) := 0 <= k && k < len(m.Tracks)
 //@ pred hasVid(m *Muxer) := exists(k, inTracks(m, k) && isVideo(m.Tracks[k].Codec))
